@@ -357,3 +357,7 @@ def run(ctx):
     # declared (C01's registration rule)
     from .C01 import r1_5
     r1_5(ctx)
+    # "no task is logged WORKING before all of its finish-to-start predecessors have stopped being WORKING" is C01 on the reversed
+    # graph: the same gates decide it (a gate that lets a task through while an FS predecessor is still WORKING shows here, too)
+    from .C01 import r1_2
+    r1_2(ctx)
